@@ -24,9 +24,9 @@ use serde_json::{json, Map, Value};
 use crate::util::{quiet_panics, read_cases, str_of, Out};
 
 const NUM_KEYS: [&str; 11] = ["depth", "seldepth", "time", "nodes", "multipv", "currmovenumber", "hashfull", "nps", "tbhits", "sbhits", "cpuload"];
-const WATCHDOG: Duration = Duration::from_secs(60);
+pub(crate) const WATCHDOG: Duration = Duration::from_secs(60);
 
-fn score_json(s: Option<Score>) -> Value {
+pub(crate) fn score_json(s: Option<Score>) -> Value {
     match s {
         Some(Score::Centipawn { score }) => json!({"kind": "cp", "v": score.to_string(), "bound": "none"}),
         Some(Score::CentipawnBounded { score, bound }) => json!({"kind": "cp", "v": score.to_string(), "bound": bound.to_string()}),
@@ -80,7 +80,7 @@ struct Session<'a> {
     dead: bool,
 }
 
-fn new_engine() -> (Engine<CommandUciTx>, Receiver<UciTxCommand>) {
+pub(crate) fn new_engine() -> (Engine<CommandUciTx>, Receiver<UciTxCommand>) {
     let (tx, rx) = channel();
     (Engine::new(Arc::new(CommandUciTx::new(tx)), false), rx)
 }
@@ -89,7 +89,7 @@ fn ms(v: &Value, k: &str) -> Option<Duration> {
     v.get(k).and_then(Value::as_u64).map(Duration::from_millis)
 }
 
-fn build_go(step: &Value) -> (Go, Vec<String>, bool) {
+pub(crate) fn build_go(step: &Value) -> (Go, Vec<String>, bool) {
     let sm: Vec<String> = step.get("searchmoves").and_then(|x| x.as_array()).map(|a| a.iter().map(|m| m.as_str().unwrap_or("").to_string()).collect()).unwrap_or_default();
     let go = Go {
         search_moves: sm.iter().filter_map(|s| UciMove::from_str(s).ok()).collect(),
